@@ -325,6 +325,7 @@ class Run:
         self.coverage = {}
         self.assumptions = []
         self.level = "proof"
+        self.is_replay = False   # a --replay run is a diagnostic: it does not replace the evidence of the check
 
     def write_evidence(self):
         os.makedirs(os.path.join(VERIF, "evidence"), exist_ok=True)
@@ -357,7 +358,8 @@ class Run:
         sys.stdout.flush()
 
     def finish(self):
-        self.write_evidence()
+        if not self.is_replay:
+            self.write_evidence()
         for k in self.known_hits:
             print("KNOWN-FINDING: property=%s %s" % (self.pid, k))
         sys.stdout.flush()
